@@ -43,8 +43,10 @@ NONGAUSS = {"Kgate": (1, ["r"]), "Vgate": (1, ["r"]), "CKgate": (2, ["r"])}
 FOCK_PREPS = {"Fock": (1, ["k"])}
 # deterministic (post-selected) measurements: MeasureHomodyne(phi, select=value), MeasureHeterodyne(select=re + i im)
 MEASURE_SEL = {"MeasureHomodyneSel": (1, ["a", "r"]), "MeasureHeterodyneSel": (1, ["r", "r"])}
+# PassiveChannel(T) on 1..3 modes (Gaussian backend only): params = [Re T, Im T] nested lists, T a contraction (singular values <= 1)
+PASSIVE = {"PassiveChannel": (1, ["passive"])}
 ALL = {}
-for _d in (GAUSSIAN_GATES, CHANNELS, PREPS, NONGAUSS, FOCK_PREPS, MEASURE_SEL):
+for _d in (GAUSSIAN_GATES, CHANNELS, PREPS, NONGAUSS, FOCK_PREPS, MEASURE_SEL, PASSIVE):
     ALL.update(_d)
 
 
@@ -69,9 +71,25 @@ def draw_param(rng, kind, exact=False):
     return rng.choice([0.0, 0.5, -0.5, 0.25]) if rng.random() < 0.3 else round(rng.uniform(-0.8, 0.8), 3)
 
 
+def passive_T(rng, k):
+    """A random k x k passive transformation (contraction): unitary . diag(s) . unitary, s in [0, 1]; sometimes unitary or diagonal."""
+    rs = np.random.RandomState(rng.randrange(2 ** 31))
+
+    def unitary():
+        q, r = np.linalg.qr(rs.randn(k, k) + 1j * rs.randn(k, k))
+        return q * (np.diag(r) / np.abs(np.diag(r)))
+    kind = rng.choice(["general", "general", "unitary", "diagonal"])
+    sv = np.ones(k) if kind == "unitary" else np.round(rs.uniform(0.2, 1.0, size=k), 3)
+    T = np.diag(np.sqrt(sv)).astype(complex) if kind == "diagonal" else unitary() @ np.diag(sv) @ unitary()
+    return [np.round(T.real, 6).tolist(), np.round(T.imag, 6).tolist()]
+
+
 def random_cmd(rng, n, names, dagger_prob=0.25, exact=False):
     names = [x for x in names if ALL[x][0] <= n]
     name = rng.choice(names)
+    if name == "PassiveChannel":
+        k = rng.randint(1, min(3, n))
+        return [name, passive_T(rng, k), rng.sample(range(n), k), False]
     nm, kinds = ALL[name]
     modes = rng.sample(range(n), nm)
     params = [draw_param(rng, k, exact) for k in kinds]
@@ -114,6 +132,8 @@ def make_op(name, params, dagger=False):
         return ops.MeasureHomodyne(params[0], select=params[1])
     if name == "MeasureHeterodyneSel":
         return ops.MeasureHeterodyne(select=complex(params[0], params[1]))
+    if name == "PassiveChannel":
+        return ops.PassiveChannel(np.array(params[0], dtype=float) + 1j * np.array(params[1], dtype=float))
     if name == "GaussianNoDecomp":
         # params = [V (nested list, xxpp order over the listed modes, hbar = 2), r (list)]
         return ops.Gaussian(np.array(params[0], dtype=float), np.array(params[1], dtype=float), decomp=False)
